@@ -101,7 +101,7 @@ EnumStep(e) ==
                  \cup (IF ~e.space_complete \/ adm = {} \/ \A i \in DOMAIN e.rows : \E o \in outs : SameDisc(e.rows[i].x, o[1]) THEN {} ELSE {"C04.listed_row_never_decoded_to"})
               ELSE {})
              \cup (IF e.n_declared = -1 \/ e.n_declared = Prod(DiscreteNs) THEN {} ELSE {"C04.declared_size_not_product"})
-             \cup (IF e.ratio_ppm < 0 \/ e.n_valid <= 0 THEN {}
+             \cup (IF e.ratio_ppm < 0 \/ e.n_valid <= 0 \/ e.n_declared < 0 THEN {}
                    ELSE IF (e.ratio_ppm * e.n_valid - e.n_declared * 1000000) \in (-(e.n_valid))..e.n_valid THEN {} ELSE {"C04.ratio_not_quotient"})
     IN /\ fails' = fails \cup Tag(c)
        /\ rows' = IF e.avail THEN e.rows ELSE <<>>
